@@ -306,7 +306,7 @@ pub fn guarded<T>(f: impl FnOnce() -> T) -> Caught<T> {
                 .unwrap_or_else(|e| e.into_inner())
                 .take()
                 .unwrap_or_default();
-            if loc.contains("harness/src") || loc.contains("rvmon") {
+            if loc.contains("harness/src/") {
                 Caught::HarnessPanic(loc, msg)
             } else {
                 Caught::LibPanic(loc, msg)
